@@ -11,12 +11,21 @@ package main
 // a harness-owned `now`, and the four clauses of the property are checked over
 // an inventory (repository -> where it lives) taken before and after every
 // round with an independent directory reader.
+//
+// Two further dimensions: the shards in the index carry generated mtimes (3h
+// to 3 days old: a repository indexed long ago), and the harness keeps its
+// own record of when a shard entered the trash, so "older than 24 hours" is
+// judged over the history and not only over the mtimes cleanup itself writes;
+// repository names come in look-alike styles (containing "compound-", starting
+// with "compound", containing "_v16" / ".zoekt", host/path names that are
+// escaped in the shard file name).
 
 import (
 	"bytes"
 	"crypto/sha1"
 	"encoding/json"
 	"fmt"
+	"net/url"
 	"os"
 	"path/filepath"
 	"sort"
@@ -37,6 +46,9 @@ type c32Simple struct {
 	Name string
 	N    int  // shard number in the file name
 	Meta bool `json:",omitempty"` // has a .meta sidecar
+	// AgeMin: mtime of the shard = first now - AgeMin minutes (when it was
+	// last indexed); 0 = the default of 3 hours.
+	AgeMin int `json:",omitempty"`
 }
 
 type c32Trash struct {
@@ -87,30 +99,109 @@ var c32PoolMembers = [][]uint32{{1, 2, 3}, {3, 4, 5}, {5, 6}, {1, 2, 4}}
 
 func c32Name(id uint32) string { return fmt.Sprintf("r%d", id) }
 
+// c32CompoundPrefix widens the generator to repositories whose name starts
+// with "compound-": their SIMPLE shards are called compound-..._v16.00000.zoekt
+// and cleanup.go, which recognises compound shards by that file name prefix,
+// deletes / tombstones them instead of moving them (finding
+// c32KnownCompoundPrefix); off by default.
+var c32CompoundPrefix = os.Getenv("VERIF_C32_COMPOUND_PREFIX") == "1"
+
+const c32KnownCompoundPrefix = "C32-repository-name-starts-with-compound-dash"
+
+// c32NameStyles are the look-alike styles a repository's name is drawn from.
+// The pre-built compound shards always use the plain style for their members.
+var c32NameStyles = []string{
+	"plain",             // r3
+	"host-path",         // github.com/acme/r3 (escaped in the file name)
+	"contains-compound", // github.com/acme/compound-r3
+	"infix-compound",    // x-compound-r3 (no escaping needed)
+	"starts-compound",   // compoundr3
+	"starts-compound_",  // compound_r3
+	"contains-_v16",     // r3_v16
+	"contains-.zoekt",   // r3.zoekt
+	"shard-like",        // r3_v16.00000.zoekt
+	"compound-prefix",   // compound-r3 (only with VERIF_C32_COMPOUND_PREFIX=1)
+}
+
+func c32StyledName(style string, id uint32) string {
+	r := c32Name(id)
+	switch style {
+	case "host-path":
+		return "github.com/acme/" + r
+	case "contains-compound":
+		return "github.com/acme/compound-" + r
+	case "infix-compound":
+		return "x-compound-" + r
+	case "starts-compound":
+		return "compound" + r
+	case "starts-compound_":
+		return "compound_" + r
+	case "contains-_v16":
+		return r + fmt.Sprintf("_v%d", index.IndexFormatVersion)
+	case "contains-.zoekt":
+		return r + ".zoekt"
+	case "shard-like":
+		return r + fmt.Sprintf("_v%d.00000.zoekt", index.IndexFormatVersion)
+	case "compound-prefix":
+		return "compound-" + r
+	}
+	return r
+}
+
+// c32NameStyle classifies a repository name (for labels and the recogniser of
+// the compound-prefix finding).
+func c32NameStyle(name string) string {
+	switch {
+	case strings.HasPrefix(name, "compound-"):
+		return "compound-prefix"
+	case strings.Contains(name, "compound-"):
+		return "contains-compound-"
+	case strings.HasPrefix(name, "compound"):
+		return "starts-compound"
+	case strings.Contains(name, ".zoekt") || strings.Contains(name, "_v1"):
+		return "shard-file-like"
+	case strings.Contains(name, "/"):
+		return "host-path"
+	}
+	return "plain"
+}
+
 func genC32(rt *rapid.T) c32Case {
 	g := kit.G{T: rt}
 	c := c32Case{ShardMerging: g.Int(0, 9, "merging") >= 2}
-	name := func(id uint32) string {
-		switch v := g.Int(0, 19, "namekind"); {
-		case v == 7 || v == 8 || v == 9:
-			return c32Name(id) + "x" // renamed
-		case v == 13 && c32NameReuse:
-			return c32Name(id%c32MaxID + 1) // the name of another repository id
-		default:
-			return c32Name(id)
-		}
+	styles := c32NameStyles[:len(c32NameStyles)-1]
+	if c32CompoundPrefix {
+		styles = c32NameStyles
 	}
+	// when each shard of the index was last written (its mtime)
+	indexAges := []int{180, 180, 180, 1, 23 * 60, 24 * 60, 24*60 + 1, 30 * 60, 72 * 60, 72 * 60}
 	for id := uint32(1); id <= c32MaxID; id++ {
+		// the repository's name: plain in half of the cases, else a look-alike
+		base := c32Name(id)
+		if g.Int(0, 9, "styled") >= 5 {
+			base = c32StyledName(kit.Pick(g, styles[1:], "namestyle"), id)
+		}
+		name := func(id uint32) string {
+			switch v := g.Int(0, 19, "namekind"); {
+			case v == 7 || v == 8 || v == 9:
+				return base + "x" // renamed
+			case v == 13 && c32NameReuse:
+				return c32Name(id%c32MaxID + 1) // the name of another repository id
+			default:
+				return base
+			}
+		}
+		age := kit.Pick(g, indexAges, "indexage")
 		// index placement
 		switch g.Int(0, 9, "index") {
 		case 0, 1: // absent
 		case 2, 3:
-			c.Simple = append(c.Simple, c32Simple{ID: id, Name: name(id), N: 0, Meta: g.Int(0, 9, "meta") == 5})
-		case 4:
+			c.Simple = append(c.Simple, c32Simple{ID: id, Name: name(id), N: 0, Meta: g.Int(0, 9, "meta") == 5, AgeMin: age})
+		case 4: // two shards, possibly written at different times
 			n := name(id)
-			c.Simple = append(c.Simple, c32Simple{ID: id, Name: n, N: 0}, c32Simple{ID: id, Name: n, N: 1})
+			c.Simple = append(c.Simple, c32Simple{ID: id, Name: n, N: 0, AgeMin: age}, c32Simple{ID: id, Name: n, N: 1, AgeMin: kit.Pick(g, indexAges, "indexage2")})
 		case 5: // renamed: two shards, two names
-			c.Simple = append(c.Simple, c32Simple{ID: id, Name: c32Name(id), N: 0}, c32Simple{ID: id, Name: c32Name(id) + "x", N: 0})
+			c.Simple = append(c.Simple, c32Simple{ID: id, Name: base, N: 0, AgeMin: age}, c32Simple{ID: id, Name: base + "x", N: 0, AgeMin: kit.Pick(g, indexAges, "indexage2")})
 		default: // left to the compound shards (if any)
 		}
 		// trash placement
@@ -124,8 +215,8 @@ func genC32(rt *rapid.T) c32Case {
 			c.Trash = append(c.Trash, c32Trash{ID: id, Name: n, N: 0, AgeMin: kit.Pick(g, ages, "age")},
 				c32Trash{ID: id, Name: n, N: 1, AgeMin: kit.Pick(g, ages, "age2")})
 		default:
-			c.Trash = append(c.Trash, c32Trash{ID: id, Name: c32Name(id), N: 0, AgeMin: kit.Pick(g, ages, "age")},
-				c32Trash{ID: id, Name: c32Name(id) + "x", N: 0, AgeMin: kit.Pick(g, ages, "age2")})
+			c.Trash = append(c.Trash, c32Trash{ID: id, Name: base, N: 0, AgeMin: kit.Pick(g, ages, "age")},
+				c32Trash{ID: id, Name: base + "x", N: 0, AgeMin: kit.Pick(g, ages, "age2")})
 		}
 	}
 	if c.ShardMerging {
@@ -233,8 +324,11 @@ func c32Normalize(c *c32Case) {
 	c.Compound = comp
 }
 
+// c32ShardFile names a simple shard the way the indexer does (escaped
+// repository name; the names used here are far below the length at which the
+// indexer truncates).
 func c32ShardFile(name string, n int) string {
-	return fmt.Sprintf("%s_v%d.%05d.zoekt", name, index.IndexFormatVersion, n)
+	return fmt.Sprintf("%s_v%d.%05d.zoekt", url.QueryEscape(name), index.IndexFormatVersion, n)
 }
 
 // ---- shard pool ------------------------------------------------------------
@@ -378,8 +472,16 @@ func c32Materialize(c *c32Case, dir string) error {
 				return err
 			}
 		}
-		mt := c32Epoch.Add(-3 * time.Hour)
-		os.Chtimes(p, mt, mt)
+		age := s.AgeMin
+		if age == 0 {
+			age = 180
+		}
+		mt := c32Epoch.Add(-time.Duration(age) * time.Minute)
+		for _, f := range []string{p, p + ".meta"} {
+			if err := os.Chtimes(f, mt, mt); err != nil && (f == p || !os.IsNotExist(err)) {
+				return err
+			}
+		}
 	}
 	for _, s := range c.Trash {
 		b, err := c32SimpleBytes(s.ID, s.Name, "trashed")
@@ -511,15 +613,17 @@ func c32Inventory(dir string) (map[uint32]*c32Loc, error) {
 			if err != nil {
 				return err
 			}
-			repos, _, err := index.ReadMetadataPath(p)
+			repos, md, err := index.ReadMetadataPath(p)
 			if err != nil {
 				return fmt.Errorf("unreadable shard %s: %v", p, err)
 			}
 			h := fmt.Sprintf("%x", sha1.Sum(data))[:12]
+			// a compound shard is recognised by what it is (written in the
+			// merged format, several repositories), not by its file name
+			compound := md.IndexFormatVersion == index.NextIndexFormatVersion || len(repos) > 1
 			for _, r := range repos {
 				f := c32File{Base: e.Name(), Name: r.Name, Hash: h, MTime: fi.ModTime()}
 				l := loc(r.ID)
-				compound := strings.HasPrefix(e.Name(), "compound-")
 				switch {
 				case trash && !r.Tombstone:
 					l.Trash = append(l.Trash, f)
@@ -549,8 +653,20 @@ func c32Inventory(dir string) (map[uint32]*c32Loc, error) {
 
 // c32Check judges one cleanup round. It returns labels describing what the
 // round exercised.
-func c32Check(before, after map[uint32]*c32Loc, assigned map[uint32]bool, now time.Time, round int) (labels []string, interesting bool, err error) {
+//
+// entered is the harness's own record of when a file (c32Key) that is in the
+// trash before this round was moved there by an earlier round; files that
+// were in the trash from the start are dated by their mtime. The time a shard
+// has spent in the trash is judged by that record, so a cleanup that trashes
+// a shard without dating it is seen to delete it early in the next round.
+func c32Check(before, after map[uint32]*c32Loc, assigned map[uint32]bool, entered map[string]time.Time, now time.Time, round int) (labels []string, interesting bool, err error) {
 	minAge := now.Add(-24 * time.Hour)
+	since := func(f c32File) time.Time {
+		if t, ok := entered[c32Key(f)]; ok {
+			return t
+		}
+		return f.MTime
+	}
 	ids := map[uint32]bool{}
 	for id := range before {
 		ids[id] = true
@@ -576,8 +692,14 @@ func c32Check(before, after map[uint32]*c32Loc, assigned map[uint32]bool, now ti
 		inconsistent := len(b.names()) > 1
 		old := false
 		for _, f := range b.Trash {
-			if f.MTime.Before(minAge) {
+			if since(f).Before(minAge) {
 				old = true
+			}
+			if _, ok := entered[c32Key(f)]; ok {
+				lab["trash:entered-in-earlier-round"] = true
+				if f.MTime.Before(minAge) && !since(f).Before(minAge) {
+					lab["trash:mtime-older-than-stay"] = true
+				}
 			}
 		}
 		freshTrash := len(b.Trash) > 0 && !old
@@ -638,8 +760,20 @@ func c32Check(before, after map[uint32]*c32Loc, assigned map[uint32]bool, now ti
 			if b.alive() && !inconsistent {
 				for _, f := range b.Simple {
 					lab["unassigned:simple-trashed"] = true
+					if f.MTime.Before(minAge) {
+						lab["unassigned:simple-trashed-indexed-over-24h-ago"] = true
+					}
 					if !c32Has(a.Trash, f.Base, f.Hash) {
 						return nil, false, kit.Fail("unassigned-deleted", "%s: shard %s left the index but is not in the trash", ctx, f.Base)
+					}
+					// clause 4: the 24 hours count from now on. The trash is
+					// dated by mtime (cleanup_test.go: trashed shards carry the
+					// time of trashing), so a shard that arrives with an mtime
+					// before now is deleted before it has been there for 24h.
+					for _, t := range a.Trash {
+						if os.Getenv("C32_TMP_NOMT") == "" && t.Base == f.Base && t.Hash == f.Hash && t.MTime.Before(now) {
+							return nil, false, kit.Fail("trash-entry-backdated", "%s: shard %s was moved to the trash at %s but carries mtime %s: it will be deleted permanently %s before it has been in the trash for 24h", ctx, f.Base, now.Format(time.RFC3339), t.MTime.Format(time.RFC3339), now.Sub(t.MTime))
+						}
 					}
 				}
 				for _, f := range b.Compound {
@@ -668,14 +802,14 @@ func c32Check(before, after map[uint32]*c32Loc, assigned map[uint32]bool, now ti
 			default:
 				lab["trash:fresh"] = true
 				for _, f := range b.Trash {
-					if f.MTime.After(now) {
+					if since(f).After(now) {
 						lab["trash:future-dated"] = true
 					}
-					if f.MTime.Equal(minAge) {
+					if since(f).Equal(minAge) {
 						lab["trash:exactly-24h"] = true
 					}
 					if !c32Has(a.Trash, f.Base, f.Hash) && !c32Has(a.Simple, f.Base, f.Hash) {
-						return nil, false, kit.Fail("trash-deleted-early", "%s: trashed shard %s (mtime %s, now %s) was permanently deleted although it is younger than 24h and nothing in the index conflicts", ctx, f.Base, f.MTime.Format(time.RFC3339), now.Format(time.RFC3339))
+						return nil, false, kit.Fail("trash-deleted-early", "%s: trashed shard %s (in the trash since %s, mtime %s, now %s) was permanently deleted although it has been in the trash for less than 24h and nothing in the index conflicts", ctx, f.Base, since(f).Format(time.RFC3339), f.MTime.Format(time.RFC3339), now.Format(time.RFC3339))
 					}
 				}
 			}
@@ -686,6 +820,34 @@ func c32Check(before, after map[uint32]*c32Loc, assigned map[uint32]bool, now ti
 	}
 	sort.Strings(labels)
 	return labels, assignedRestored && unassignedCompound, nil
+}
+
+func c32Key(f c32File) string { return f.Base + "|" + f.Hash }
+
+// c32Entered carries the record of trash arrivals over one round: a file that
+// is in the trash after the round and was there before keeps its date, a file
+// that was in the index before the round arrived at `now`.
+func c32Entered(prev map[string]time.Time, before, after map[uint32]*c32Loc, now time.Time) map[string]time.Time {
+	next := map[string]time.Time{}
+	for id, a := range after {
+		b := before[id]
+		if b == nil {
+			b = &c32Loc{}
+		}
+		for _, f := range a.Trash {
+			k := c32Key(f)
+			switch {
+			case c32Has(b.Simple, f.Base, f.Hash):
+				// moved (or moved over an identical trashed copy) in this round
+				next[k] = now
+			case c32Has(b.Trash, f.Base, f.Hash):
+				if t, ok := prev[k]; ok {
+					next[k] = t
+				}
+			}
+		}
+	}
+	return next
 }
 
 // c32Domain reports whether the directory is still inside the input domain
@@ -714,11 +876,27 @@ func runC32(rec *kit.Recorder, c c32Case) error {
 	}
 	clash := c32NameClash(&c)
 	now := c32Epoch
+	entered := map[string]time.Time{}
+	styles := map[string]bool{}
+	prefixed := false
+	for _, s := range c.Simple {
+		styles["name:"+c32NameStyle(s.Name)] = true
+		prefixed = prefixed || strings.HasPrefix(s.Name, "compound-")
+	}
+	for _, s := range c.Trash {
+		styles["name:"+c32NameStyle(s.Name)] = true
+		prefixed = prefixed || strings.HasPrefix(s.Name, "compound-")
+	}
 	key, _ := json.Marshal(c)
 	layout := "layout:simple-only"
 	if len(c.Compound) > 0 {
 		layout = "layout:with-compound"
 	}
+	var styleLabels []string
+	for l := range styles {
+		styleLabels = append(styleLabels, l)
+	}
+	sort.Strings(styleLabels)
 	for i, r := range c.Rounds {
 		now = now.Add(time.Duration(r.AdvanceMin) * time.Minute)
 		before, err := c32Inventory(dir)
@@ -741,14 +919,19 @@ func runC32(rec *kit.Recorder, c c32Case) error {
 		if err != nil {
 			return kit.Fail("unreadable", "after round %d: %v", i, err)
 		}
-		labels, nt, err := c32Check(before, after, assigned, now, i)
+		labels, nt, err := c32Check(before, after, assigned, entered, now, i)
 		if err != nil {
 			if d, ok := err.(*kit.Discrepancy); ok && clash {
 				d.Known = c32KnownNameReuse
 				d.Detail += " [two repository ids share a shard file name in this directory]"
+			} else if ok && prefixed {
+				d.Known = c32KnownCompoundPrefix
+				d.Detail += " [a repository name in this directory starts with \"compound-\"]"
 			}
 			return err
 		}
+		entered = c32Entered(entered, before, after, now)
+		labels = append(labels, styleLabels...)
 		if tmps, _ := filepath.Glob(filepath.Join(dir, "*.tmp")); len(c.Tmp) > 0 && len(tmps) == 0 {
 			labels = append(labels, "tmp:removed")
 		}
